@@ -617,6 +617,9 @@ def check(ctx, rep):
 
     wap_prefix_boundary(ctx, rep, "R05f")
     request_target_evaluation(ctx, rep, "R05g")
+    rep.rule("R05m", "the links WAP renders lead back: a target below the WAP prefix is recognised (prefix taken off) and then served by handle(), "
+             "which asks the recognition step again - evaluated in that order; the selector is the path below the prefix, taken off once", floor=1)
+    wap_request_evaluation(ctx, rep, "R05m")
     request_length_obligations(ctx, rep, "R05i")
     from .c13 import name_sink_obligations
     name_sink_obligations(ctx, rep, "R05h", "text from file content becomes an entry name without whitespace collapsing: a TAB or line break in it shifts "
@@ -1053,6 +1056,103 @@ def request_target_evaluation(ctx, rep, rule="R05g"):
         if n:
             rep.add(rule, f"WAP link targets = prefix + HTTP link targets [{n} entries]", not problems, ctx.where(ro) if ro else "", "; ".join(problems[:2]),
                     key=f"{rule}|wap-targets")
+
+
+
+# ---------------------------------------------------------------------------------------------- R05m
+def wap_request_evaluation(ctx, rep, rule="R05m"):
+    """A WAP request is recognised by WAPProtocol.canhandlerequest() - which takes the prefix off the target - and then served by
+    handle(), which asks canhandlerequest() again: the two steps are evaluated in that order, as the multiplexer runs them, and the
+    selector at the handler look-up has to be the path below the prefix, once."""
+    from ..paths import Const, PathLimit, Walker, truth
+    import urllib.parse as up
+
+    prog = ctx.prog
+    P = ctx.cls("protocols.wap.WAPProtocol")
+    can = prog.resolve_method(P, "canhandlerequest") if P else None
+    h = prog.resolve_method(P, "handle") if P else None
+    if can is None or h is None:
+        rep.ok(rule, "no WAP protocol", "pygopherd/protocols", "", key=f"{rule}|none", nontrivial=False)
+        return
+    TOP = "/wap"
+    names = ["/docs/a b.txt", "/wap", "/wap/phones.txt", "/wapx/y", "/dir/sub", "/"]
+
+    def hooks(stop):
+        def cv(call, tgt, st):
+            f = call.func
+            if isinstance(f, ast.Attribute) and f.attr == "check_tls":
+                return Const(False)
+            if isinstance(f, ast.Attribute) and f.attr in ("headerslurp", "log"):
+                return Const(None)
+            if isinstance(f, ast.Attribute) and f.attr == "get" and dotted(f.value) == "self.config" and len(call.args) == 2 \
+                    and isinstance(call.args[1], ast.Constant):
+                if call.args[1].value == "waptop":
+                    return Const(TOP)
+                if call.args[1].value == "iconmapping":
+                    return Const("{}")
+            if dotted(f) == "eval":
+                return Const({})
+            return None
+
+        def ev(node, st):
+            if isinstance(node, ast.Call) and dotted(node.func) == "hasattr" and len(node.args) == 2 and dotted(node.args[0]) == "self" \
+                    and isinstance(node.args[1], ast.Constant):
+                nm = node.args[1].value
+                known = ("self." + nm) in st.facts or any(not isinstance(c, str) and (nm in c.attrs or nm in c.methods) for c in prog.mro(P))
+                return Const(bool(known))
+            return None
+
+        def rp(call, tgt):
+            return ["StopAtLookup"] if stop and isinstance(call.func, ast.Attribute) and call.func.attr == "gethandler" else []
+
+        return cv, ev, rp
+
+    def walker(stop):
+        cv, ev, rp = hooks(stop)
+        return Walker(prog, ctx.resolver, call_value=cv, expr_value=ev, raise_points=rp, exact_loops=True, unroll=4, max_paths=3000,
+                      inline=lambda fn, t, d: d < 3 and (t.bound_cls is not None or (fn.cls is not None and prog.is_subclass(P, fn.cls))
+                                                         or (fn.cls is None and fn.module.name.startswith("pygopherd")
+                                                             and fn.module.name not in ("pygopherd.logger", "pygopherd.GopherExceptions")))
+                      and fn.name not in ("gethandler", "writedir", "filenotfound", "log", "renderobjinfo", "headerslurp", "handlerwrite", "getHandler"))
+
+    problems, n = [], 0
+    for nme in names:
+        target = TOP + up.quote(nme)
+        facts0 = {"self.request": Const(f"GET {target} HTTP/1.0"), "self.secure": Const(False)}
+        try:
+            firsts = [p for p in walker(False).run(can, P, facts=dict(facts0)) if p.kind == "return"]
+        except PathLimit:
+            continue
+        accepted = [p for p in firsts if p.value is not None and truth(p.value) is True]
+        if len(firsts) != 1 or len(accepted) != 1:
+            if firsts and all(p.value is not None and truth(p.value) is False for p in firsts):
+                n += 1
+                problems.append(f"a request for {target!r} (below the WAP prefix) is not recognised as WAP")
+            continue
+        facts1 = {k: v for k, v in accepted[0].state.facts.items() if k.startswith("self.") and v.kind == "const"}
+        got = set()
+        try:
+            for p in walker(True).run(h, P, facts=dict(facts1)):
+                if p.kind == "raise" and str(p.value) == "StopAtLookup":
+                    v = p.state.facts.get("self.selector")
+                    got.add(v.value if v is not None and v.kind == "const" else None)
+                elif any(e.kind == "call" and isinstance(e.node.func, ast.Attribute) and e.node.func.attr == "gethandler" for e in p.events):
+                    continue
+                elif p.kind == "raise":
+                    got.add(f"<{p.value}>")
+                else:
+                    got.add("<no lookup>")
+        except PathLimit:
+            continue
+        if None in got or not got:
+            continue
+        n += 1
+        want = nme if nme == "/" else nme.rstrip("/")
+        if got != {want} and not (nme == "/" and got <= {"/", ""}):
+            problems.append(f"the WAP request target {target!r} - recognised, then served - reaches the handlers as {sorted(map(str, got))} instead of {want!r}")
+    rep.add(rule, f"{P.name}: recognition, then handle(): the selector is the path below the prefix [{n} of {len(names)} targets]", not problems and n >= 3,
+            ctx.where(can), "; ".join(problems[:2]) if problems else ("" if n >= 3 else "the walker could not follow the two steps"),
+            key=f"{rule}|wap", nontrivial=n > 0)
 
 
 # ---------------------------------------------------------------------------------------------- R05j
